@@ -117,21 +117,31 @@ var (
 
 func c15Setup() (*c15World, error) {
 	c15Once.Do(func() {
+		model := filepath.Join(os.Getenv("VERIF_REPO"), "server", "configs", "authz", "model.conf")
+		w := &c15World{}
 		l, err := newVFL3("c15", func(c *Config) {
 			c.CursorsStream.Partitions = 1
 			c.CursorsStream.AutoPauseTime = 0
+			// the authorisation settings as a configuration file would give them;
+			// the policy file exists before the server starts. (Without TLS
+			// certificates Start does not build the enforcer itself: the harness
+			// installs one over the same two files below.)
+			c.TLSClientAuthz = true
+			c.TLSClientAuthzModel = model
+			c.TLSClientAuthzPolicy = filepath.Join(c.DataDir, "policy.csv")
+			os.MkdirAll(c.DataDir, 0o755)
+			os.WriteFile(c.TLSClientAuthzPolicy, []byte(w.csv(nil)), 0o644)
 		})
 		if err != nil {
 			c15Err = err
 			return
 		}
-		w := &c15World{l: l, dir: l.dir}
+		w.l, w.dir = l, l.dir
 		w.policy = filepath.Join(l.dir, "policy.csv")
-		if err := os.WriteFile(w.policy, []byte(w.csv(nil)), 0o644); err != nil {
+		if _, err := os.Stat(w.policy); err != nil {
 			c15Err = err
 			return
 		}
-		model := filepath.Join(os.Getenv("VERIF_REPO"), "server", "configs", "authz", "model.conf")
 		enf, err := casbin.NewEnforcer(model, w.policy)
 		if err != nil {
 			c15Err = fmt.Errorf("casbin: %v", err)
